@@ -1,0 +1,26 @@
+//go:build verif
+
+// Contracts for the deductive verifier in /verif (comment-only file; see /verif/DESIGN.md).
+package joingroup
+
+//@ property C04
+
+// Wire layout per version, from the Kafka protocol definition of this API (field order, types and the versions each field
+// exists in); the encoders and decoders are compiled from the struct tags, so the tags are checked against it.
+//@ wire Request
+//@   layout v0 GroupID string, SessionTimeoutMS int32, MemberID string, ProtocolType string, Protocols []RequestProtocol
+//@   layout v1..v4 GroupID string, SessionTimeoutMS int32, RebalanceTimeoutMS int32, MemberID string, ProtocolType string, Protocols []RequestProtocol
+//@   layout v5 GroupID string, SessionTimeoutMS int32, RebalanceTimeoutMS int32, MemberID string, GroupInstanceID string?, ProtocolType string, Protocols []RequestProtocol
+//@   layout v6..v7 _ struct{} @-1, GroupID string, SessionTimeoutMS int32, RebalanceTimeoutMS int32, MemberID string, GroupInstanceID string?, ProtocolType string, Protocols []RequestProtocol
+//@ wire RequestProtocol
+//@   layout v0..v5 Name string, Metadata bytes
+//@   layout v6..v7 _ struct{} @-1, Name string, Metadata bytes
+//@ wire Response
+//@   layout v0..v1 ErrorCode int16, GenerationID int32, ProtocolName string, LeaderID string, MemberID string, Members []ResponseMember
+//@   layout v2..v5 ThrottleTimeMS int32, ErrorCode int16, GenerationID int32, ProtocolName string, LeaderID string, MemberID string, Members []ResponseMember
+//@   layout v6 _ struct{} @-1, ThrottleTimeMS int32, ErrorCode int16, GenerationID int32, ProtocolName string, LeaderID string, MemberID string, Members []ResponseMember
+//@   layout v7 _ struct{} @-1, ThrottleTimeMS int32, ErrorCode int16, GenerationID int32, ProtocolType string?, ProtocolName string?, LeaderID string, MemberID string, Members []ResponseMember
+//@ wire ResponseMember
+//@   layout v0..v4 MemberID string, Metadata bytes
+//@   layout v5 MemberID string, GroupInstanceID string?, Metadata bytes
+//@   layout v6..v7 _ struct{} @-1, MemberID string, GroupInstanceID string?, Metadata bytes
